@@ -242,6 +242,128 @@ def _is_raw_kernel(conv):
   return k is not None and k[0] == "sym"
 
 
+def rule_unfold_layers(rep, repo, bm, fn, unit):
+  """R4 (layer level): a composite layer built by its OWN constructor (Keras
+  parent and inner batch normalisation are stand-ins, see c13.layer_pe) is
+  handed to the interpreted convert_folded_layer_to_unfolded; the replacement
+  - built by the target class's own constructor - must have the composite
+  layer's geometry, name, activation and quantizers, and a bias."""
+  from .c13 import layer_pe, _same_function
+  qmod = repo.module("qkeras.quantizers")
+  geometry = ("filters", "kernel_size", "strides", "padding", "data_format",
+              "dilation_rate", "depth_multiplier", "groups", "name")
+  n = 0
+  for src, tgt, qattr in (
+      ("QConv2DBatchnorm", "QConv2D", "kernel_quantizer"),
+      ("QDepthwiseConv2DBatchnorm", "QDepthwiseConv2D",
+       "depthwise_quantizer")):
+    smod = [m for m in repo.modules.values() if src in m.classes]
+    tmod = [m for m in repo.modules.values() if tgt in m.classes]
+    if not smod or not tmod:
+      raise AnalysisError("anchor-missing class %s / %s" % (src, tgt))
+    ci = smod[0].classes[src]
+    for label, geo in (
+        ("default geometry", dict(kernel_size=(3, 3))),
+        ("strided, dilated, same padding",
+         dict(kernel_size=(3, 2), strides=(2, 2), padding="same",
+              dilation_rate=(2, 3))),
+        ("channels_first, no bias",
+         dict(kernel_size=(1, 1), data_format="channels_first",
+              use_bias=False)),
+        ("quantizers and activation", dict(kernel_size=(2, 2), q=True))):
+      geo = dict(geo)
+      cfg = "%s(%s)" % (src, label)
+      pe = layer_pe(repo, ci, src)
+
+      def external_from_config(pe_, a, k):
+        # keras.Layer.from_config(config) == cls(**config)
+        return pe_.call(pe_.external_super_self, [], dict(a[0]))
+      pe.ext_overrides["<external-super>.from_config"] = external_from_config
+
+      # Keras serialises an object to a dictionary that get_quantizer /
+      # deserialize_keras_object turn back into an equivalent object
+      def ser(pe_, a, k):
+        v = a[0]
+        if isinstance(v, (Obj, Mock)):
+          return {"class_name": getattr(getattr(v, "cls", None), "name",
+                                        "object"), "config": {},
+                  "__object__": v}
+        return v
+
+      def deser(pe_, a, k):
+        v = a[0]
+        if isinstance(v, dict) and "__object__" in v:
+          return v["__object__"]
+        return v
+      for key in ("*.serialize", "*.serialize_keras_object"):
+        pe.ext_overrides[key] = ser
+      for key in ("*.deserialize", "*.deserialize_keras_object"):
+        pe.ext_overrides[key] = deser
+      kw = dict(geo)
+      quantized = kw.pop("q", False)
+      if src == "QConv2DBatchnorm":
+        kw["filters"] = 8
+        if label.startswith("strided"):
+          pass
+      else:
+        kw["depth_multiplier"] = 2 if label.startswith("strided") else 1
+      if quantized:
+        kw[qattr] = pe.call(pe.lookup_global("quantized_bits", qmod), [],
+                            dict(bits=5, integer=1, alpha=1))
+        kw["bias_quantizer"] = pe.call(
+            pe.lookup_global("quantized_bits", qmod), [],
+            dict(bits=7, integer=2, alpha=1))
+        kw["activation"] = pe.call(
+            pe.lookup_global("quantized_relu", qmod), [],
+            dict(bits=6, integer=2))
+      kw.update(name="folded_%d" % n, momentum=F(9, 10),
+                folding_mode="batch_stats_folding")
+      try:
+        folded = pe.call(pe.lookup_global(src, smod[0]), [], dict(kw))
+        new = pe.call(pe.lookup_global(
+            "convert_folded_layer_to_unfolded", bm), [folded], {})
+      except PyRaise as e:
+        rep.fail("R4", unit, "raises:" + src, "%s: raises %s" % (cfg, e),
+                 loc=bm.loc(fn), instance=cfg)
+        continue
+      n += 1
+      ok_cls = isinstance(new, Obj) and new.cls.name == tgt
+      rep.check(ok_cls, "R4", unit, "unfolded-class:" + src,
+                "%s is replaced by %r, expected a %s" % (cfg, new, tgt),
+                loc=bm.loc(fn), instance=cfg)
+      if not ok_cls:
+        continue
+
+      def val(o, a_):
+        v = o.attrs.get(a_, "<absent>")
+        return list(v) if isinstance(v, (list, tuple)) else v
+      diff = ["%s: %r -> %r" % (a_, val(folded, a_), val(new, a_))
+              for a_ in geometry if a_ in folded.attrs and
+              val(folded, a_) != val(new, a_)]
+      rep.check(not diff, "R4", unit, "unfolded-config:" + src,
+                "%s: the replacement %s differs from the composite layer "
+                "in %s" % (cfg, tgt, diff), loc=bm.loc(fn), instance=cfg,
+                observed=str(diff))
+      rep.check(new.attrs.get("use_bias") is True, "R4", unit,
+                "unfolded-without-bias:" + src,
+                "%s: the replacement has use_bias=%r; the folded bias needs "
+                "a bias" % (cfg, new.attrs.get("use_bias")), loc=bm.loc(fn),
+                instance=cfg)
+      for a_ in (qattr + "_internal", "bias_quantizer_internal",
+                 "activation"):
+        rep.check(_same_function(pe, folded.attrs.get(a_),
+                                 new.attrs.get(a_)), "R4", unit,
+                  "unfolded-quantizer:%s:%s" % (src, a_),
+                  "%s: the replacement applies %r as %s, the composite "
+                  "layer %r" % (cfg, new.attrs.get(a_), a_,
+                                folded.attrs.get(a_)), loc=bm.loc(fn),
+                  instance=cfg)
+  rep.extra["composite_layers_unfolded"] = n
+  if n < 8 and not any(f.rule == "R4" for f in rep.findings):
+    raise AnalysisError("instance-count only %d composite layers could be "
+                        "built and unfolded" % n)
+
+
 def rule_unfold(rep, repo):
   bm = repo.module("qkeras.bn_folding_utils")
   fn = bm.functions.get("convert_folded_layer_to_unfolded")
@@ -250,46 +372,7 @@ def rule_unfold(rep, repo):
     raise AnalysisError("anchor-missing bn_folding_utils functions")
   unit = "%s::convert_folded_layer_to_unfolded" % bm.relpath
   rep.unit(unit)
-  for src, tgt in (("QConv2DBatchnorm", "QConv2D"),
-                   ("QDepthwiseConv2DBatchnorm", "QDepthwiseConv2D")):
-    made = {}
-
-    def template(name):
-      def ctor(pe, a, k, name=name):
-        return Mock(name, {"get_config": lambda pe, a, k: {
-            "name": "tmpl", "filters": 1, "kernel_size": (2, 2),
-            "use_bias": True, "kernel_quantizer": None,
-            "depthwise_quantizer": None, "strides": (1, 1),
-            "only_in_template": "T"}})
-      m = Mock(name + "_class", {"__call__": ctor})
-      m.attrs["from_config"] = lambda pe, a, k, name=name: made.setdefault(
-          name, a[0]) and Mock(name + "_new", {})
-      return m
-    pe = PE(repo, module_overrides={bm.name: {
-        "QConv2D": template("QConv2D"),
-        "QDepthwiseConv2D": template("QDepthwiseConv2D")}})
-    folded_cfg = {"name": "f1", "filters": 8, "kernel_size": (3, 3),
-                  "use_bias": False, "kernel_quantizer": "KQ",
-                  "depthwise_quantizer": "DQ", "strides": (2, 2),
-                  "folding_mode": "ema_stats_folding", "momentum": 0.9}
-    layer = Mock("folded", {
-        "__class__": Mock("class", {"__name__": src}), "name": "f1",
-        "get_config": lambda pe, a, k: dict(folded_cfg)})
-    try:
-      pe.call(pe.lookup_global("convert_folded_layer_to_unfolded", bm),
-              [layer], {})
-    except PyRaise as e:
-      rep.fail("R4", unit, "raises:" + src, "raises %s" % e, loc=bm.loc(fn))
-      continue
-    cfg = made.get(tgt)
-    want = {"name": "f1", "filters": 8, "kernel_size": (3, 3),
-            "use_bias": True, "kernel_quantizer": "KQ",
-            "depthwise_quantizer": "DQ", "strides": (2, 2),
-            "only_in_template": "T"}
-    rep.check(cfg == want, "R4", unit, "unfolded-config:" + src,
-              "the %s replacing a %s is built from %r, expected every shared "
-              "key from the folded layer and use_bias=True: %r" %
-              (tgt, src, cfg, want), loc=bm.loc(fn))
+  rule_unfold_layers(rep, repo, bm, fn, unit)
   # unfold_model: weights of the replacement come from get_folded_weights
   unit = "%s::unfold_model" % bm.relpath
   rep.unit(unit)
